@@ -522,11 +522,11 @@ TrFmtParse == IsOp("fmt_parse") /\ KeepAll /\
         \* a well-formed sentence of an all-numeric format with a field out of range is an error
         /\ (pf.ok /\ X!NumFormat(pf.items)) =>
               LET mt == X!MatchNum(pf.items, E.s) IN (mt[1] /\ X!NumMustReject(pf.items, mt[2])) => ~ok
-        \* ... and of a numeric format that ends in %z: also when the offset is beyond 23:59
+        \* ... and of a numeric format that ends in %z: also when the offset hours are beyond 24 or the minutes beyond 59
         /\ (pf.ok /\ X!NumFormatZ(pf.items)) =>
               LET mt == X!MatchNumZ(pf.items, E.s)
                   nm == SubSeq(pf.items, 1, Len(pf.items) - 1) IN
-                (mt[1] /\ (X!NumMustReject(nm, mt[2]) \/ mt[3] > 23 \/ mt[4] > 59)) => ~ok
+                (mt[1] /\ (X!NumMustReject(nm, mt[2]) \/ mt[3] > 24 \/ mt[4] > 59)) => ~ok
 
 (* "the ISO 8601 formatter output equals the default display" *)
 TrIsoVsDisplay == IsOp("iso_vs_display") /\ KeepAll /\ Has(E.iso, "v") /\ Has(E.disp, "v")
